@@ -436,6 +436,10 @@ class Pointwise(Interp):
             if args and isinstance(args[0], PV) and not kwargs:
                 a = args[0]
                 return PV(a.poly, a.cont, "arr", a.origin, uniq=True)
+            if args and isinstance(args[0], PV) and set(kwargs) == {"return_counts"} and kwargs["return_counts"] is True:
+                # the distinct values and, position by position, how many voxels carry each of them
+                a = args[0]
+                return (PV(a.poly, a.cont, "arr", a.origin, uniq=True), VoxCounts())
             return Unknown("np.unique with options")
         if n in _UFUNC_OPS and len(args) == 2 and not (set(kwargs) - {"out", "casting"}):
             res = self.binop(_UFUNC_OPS[n](), args[0], args[1], node)
@@ -488,6 +492,11 @@ class Pointwise(Interp):
             return args[0].max_value if name == "max" else Unknown("min of labels")
         if name == "int" and args and isinstance(args[0], PV):
             return PV(args[0].poly, "py", "py", args[0].origin)
+        if name == "int" and len(args) == 1 and isinstance(args[0], Sym) and args[0].name == "nvoxels":
+            return args[0]
+        if name == "zip" and args and not kwargs and all((isinstance(a, PV) and a.uniq) or isinstance(a, VoxCounts) for a in args):
+            # parallel walk over the distinct values (and their counts): the generic voxel's entry
+            return [tuple(self.iterate(a, node)[0] for a in args)]
         return super().call_builtin(name, args, kwargs, node)
 
     def iterate(self, it, node):
@@ -497,6 +506,8 @@ class Pointwise(Interp):
             return []
         if isinstance(it, PV) and it.uniq:
             return [PV(it.poly, it.cont, "nps", it.origin)]
+        if isinstance(it, VoxCounts):
+            return [Sym("nvoxels")]
         return super().iterate(it, node)
 
 
@@ -504,6 +515,10 @@ _UFUNC_OPS = {
     "numpy.remainder": ast.Mod, "numpy.mod": ast.Mod, "numpy.floor_divide": ast.FloorDiv, "numpy.add": ast.Add,
     "numpy.multiply": ast.Mult, "numpy.subtract": ast.Sub,
 }
+
+
+class VoxCounts:
+    """second result of np.unique(..., return_counts=True): one voxel count per distinct value"""
 
 
 class BoxV:
